@@ -5,7 +5,7 @@ from vlib.engines.base import drive, run_trace
 
 PROP = "C10"
 FUZZ_ENGINE = bc.BCEngine  # fuzz/traces.py (coverage-guided trace search, thorough tier)
-TECHNIQUE = "model-based stateful property testing: a reference model predicts, step by step, the exact frames written per connection and the time and address of every connection attempt; drops injected at every event boundary; ddmin-shrunk traces"
+TECHNIQUE = "model-based stateful property testing: a reference model predicts, step by step, the exact frames written per connection and the time and address of every connection attempt; drops injected at every event boundary; ddmin-shrunk traces; plus coverage-guided fuzzing of the same trace driver (atheris/libFuzzer mutating Hypothesis' choice sequence; fuzz/traces.py)"
 RULE = (
     "same trace space as C06 (engine BC) with drops before/between/inside frames, while connecting and during backoff, 0..n "
     "consecutive refused attempts, a generated retry policy (linear / exponential / constant), updateMetadata between "
